@@ -7,7 +7,13 @@ R=${1:-/tmp/reseed_repo}; V=${2:-/tmp/reseed_verif}
 git -C /repo worktree remove --force $R 2>/dev/null; git -C /repo worktree add --detach $R HEAD -f >/dev/null 2>&1 || exit 2
 rm -rf $V; rsync -a --exclude .git /verif/ $V/
 ok=0; bad=0
-for d in /verif/seeded/C*; do
+# SEED_PROPS="C13 C17 ..." restricts the run to (and orders it by) those properties
+if [ -n "$SEED_PROPS" ]; then
+  dirs=""; for p in $SEED_PROPS; do dirs="$dirs $(ls -d /verif/seeded/$p /verif/seeded/$p[a-z] 2>/dev/null)"; done
+else
+  dirs=$(ls -d /verif/seeded/C*)
+fi
+for d in $dirs; do
   id=$(basename $d)
   chk=$(python3 -c "import json,re;print(re.split(r'[ ,]+',json.load(open('$d/meta.json'))['caught_by'])[0])")
   [ "$chk" = "none" ] && { echo "$id: recorded as not decided (skipped)"; continue; }
